@@ -1,8 +1,11 @@
 (* C13 — Pareto-set extraction is exact for every finite set and cone.
    pareto_fast_q / pareto_naive_q are the models of PolyhedralConeOrder.get_pareto_set /
-   get_pareto_set_naive (tied to the code by the correspondence check). *)
+   get_pareto_set_naive; the numpy loops themselves are REGENERATED literally (Gen_pareto.v: masks, compaction,
+   index arithmetic) and proved to compute exactly these models (ParetoRefine.v); the correspondence check runs both
+   against the implementation. *)
 From Coq Require Import QArith List Bool Sorted.
-From VOPy Require Import QVec Cone Pareto ParetoQ.
+From VOPy Require Import QVec Cone Pareto ParetoQ LoopPareto ParetoRefine.
+From VOPyGen Require Import Gen_pareto.
 Import ListNotations.
 
 Theorem C13_fast_indices_increasing : forall W vs, StronglySorted lt (pareto_fast_q W vs).
@@ -49,3 +52,16 @@ Theorem C13_naive_cover : forall W vs j, (j < length vs)%nat ->
   exists i, In i (pareto_naive_q W vs) /\ dominates W (nth i vs []) (nth j vs []) = true.
 Proof. exact naive_q_cover. Qed.
 Print Assumptions C13_naive_cover.
+
+(* the array-level loops regenerated from vopy/order.py (mask[i] = not dominates(vj, vi); mask[next] = True; compaction of
+   is_pareto and elements; next = sum(mask[:next]) + 1;  resp. the naive double loop with its strictness test) compute the
+   models above, for every dominance relation *)
+Theorem C13_regenerated_loop_is_the_model : forall W vs,
+  gen_get_pareto_set vec (dominates W) vs = pareto_fast_q W vs.
+Proof. intros W vs. exact (gen_get_pareto_set_is_model vec (dominates W) vs). Qed.
+Print Assumptions C13_regenerated_loop_is_the_model.
+
+Theorem C13_regenerated_naive_loop_is_the_model : forall W vs,
+  gen_get_pareto_set_naive vec (dominates W) vs = pareto_naive_q W vs.
+Proof. intros W vs. exact (gen_get_pareto_set_naive_is_model vec (dominates W) vs). Qed.
+Print Assumptions C13_regenerated_naive_loop_is_the_model.
